@@ -516,3 +516,58 @@ func c02outOfOrderDecodedIntoOwnRecord(c *an.Ctx) {
 		}
 	}
 }
+
+func init() {
+	old := All["C02"].Run
+	All["C02"].Run = func(c *an.Ctx) {
+		old(c)
+		c02lastFlushTimeMonotone(c)
+	}
+	All["C02"].Rules += " R14"
+	addLevel("C02", "The last flushed time of a series only grows: every update of idInfo.lastFlushTime stores a time that was tested to be greater than the stored one (out-of-order flushes and concurrent file loads report smaller times).")
+}
+
+// c02lastFlushTimeMonotone — C02.R14.  Rows newer than lastFlushTime go to ordered files, the rest
+// to out-of-order files; ordered files of a series are time-disjoint only if the bound never moves
+// back.  Flushes of late rows and the concurrent load of files report smaller times too, so a store
+// is legal only under `new > info.lastFlushTime`.
+func c02lastFlushTimeMonotone(c *an.Ctx) {
+	const I = "engine/immutable"
+	r := c.Rule("C02.R14", "K-GUARD", I+": idInfo.lastFlushTime is assigned only a value tested to be greater than the stored one")
+	fld := obj(r, I+":idInfo.lastFlushTime")
+	if fld == nil {
+		return
+	}
+	n := 0
+	for _, s := range c.P.StoresTo(fld) {
+		if s.Caller == nil || s.How != "assign" || s.Rhs == nil {
+			continue
+		}
+		if strings.HasSuffix(c.P.Fset.Position(s.Node.Pos()).Filename, "_test.go") {
+			continue
+		}
+		f := c.P.Fn(s.Caller)
+		if f == nil {
+			continue
+		}
+		n++
+		as, _ := s.Node.(*ast.AssignStmt)
+		if as == nil {
+			continue
+		}
+		var lhs ast.Expr
+		for i, l := range as.Lhs {
+			if i < len(as.Rhs) && as.Rhs[i] == s.Rhs {
+				lhs = l
+			}
+		}
+		if lhs == nil {
+			lhs = as.Lhs[0]
+		}
+		old, val := regexp.QuoteMeta(f.Canon(lhs)), regexp.QuoteMeta(f.Canon(s.Rhs))
+		one := f.Find(an.MNode("lastFlushTime = …", func(g *an.Fn, m ast.Node) bool { return m == ast.Node(as) }))
+		f.Guarded(r, one, "stored only if greater than the stored time", an.AtomLike(`^`+old+`<`+val+`$`, true), an.AtomLike(`^`+val+`<=`+old+`$`, false))
+	}
+	r.AddSites(n)
+	r.Floor(1, "assignments of idInfo.lastFlushTime")
+}
